@@ -550,6 +550,9 @@ class Interp:
         if isinstance(node, ast.Name) and node.id in self.env and self.env[node.id].kind == 'mod':
             self.env[name] = self.env[node.id]
             return
+        if isinstance(node, ast.Name) and node.id not in self.env and node.id in ('np', 'numpy', 'math'):      # `np_ply = np`
+            self.env[name] = V('mod', {'numpy': 'np'}.get(node.id, node.id))
+            return
         v = self.ev(node)
         if v.kind == 'acc':
             self.acc_owner(name)
